@@ -83,6 +83,39 @@ pub fn check_one(g: &G, text: &str, shell: Shell, c: &pipe::Compiled) -> Result<
             }
         }
     }
+    // within-word automata are interned by complgen's own DFA equality: two automata it calls
+    // equal must be the same automaton (same canonical form), or one silently replaces the other
+    let mut subs: Vec<(String, complgen::dfa::DFA)> = vec![];
+    for inp in &c.regex.input_from_position {
+        if let complgen::regex::RegexInput::Subword { subword_regex_id, .. } = inp {
+            let name = format!("{subword_regex_id}");
+            if subs.iter().any(|(n, _)| *n == name) {
+                continue;
+            }
+            let rx = c.pool.verif_lookup(*subword_regex_id).clone();
+            if let Ok(Ok(d)) = pipe::guarded(|| complgen::dfa::DFA::from_regex_raw(rx, &c.pool).map(|d| d.minimize())) {
+                subs.push((name, d));
+            }
+        }
+    }
+    for i in 0..subs.len() {
+        for j in (i + 1)..subs.len() {
+            if subs[i].1 == subs[j].1 {
+                let mut keys = Keys::new(true);
+                let a = keys.impl_lnfa(&subs[i].1, &subs[i].1);
+                let b = keys.impl_lnfa(&subs[j].1, &subs[j].1);
+                let ca = crate::auto::determinize_l(&a, &mut keys.names).canonical(&keys.names);
+                let cb = crate::auto::determinize_l(&b, &mut keys.names).canonical(&keys.names);
+                if ca != cb {
+                    return Err((
+                        "dfa-equality-conflates-different-automata".into(),
+                        format!("within-word automata {} and {} compare equal (and are interned as one) although they differ: {} vs {}", subs[i].0, subs[j].0, ca.replace(crate::view::SEP, "\u{b7}"), cb.replace(crate::view::SEP, "\u{b7}")),
+                        J::obj(vec![("grammar", J::s(text)), ("shell", J::s(pipe::shell_name(shell))), ("automaton_a", J::s(ca)), ("automaton_b", J::s(cb))]),
+                    ));
+                }
+            }
+        }
+    }
     Ok(OneResult { stats: total, strict })
 }
 
@@ -152,7 +185,22 @@ pub fn work(acc: &mut Acc, g: G, shells: &[Shell]) {
                             });
                         }
                     }
-                    Err(v) => acc.violations.push(v),
+                    Err(mut v) => {
+                        // determinism probe: does the very same input fail again right away?
+                        let mut again = vec![];
+                        for _ in 0..3 {
+                            if let Outcome::Ok(c2) = pipe::compile(&text, *shell) {
+                                again.push(check_one(&g, &text, *shell, &c2).is_err());
+                            }
+                        }
+                        let dump = format!("{:?}", c.min.transitions) + " || inputs: " + &c.min.verif_inputs().map(|(_, i)| format!("{i:?}")).collect::<Vec<_>>().join(" ; ");
+                        v.2.push("immediate_retries_fail", J::s(format!("{again:?}")));
+                        v.2.push("impl_min_dfa", J::s(dump));
+                        if again.iter().all(|b| !*b) {
+                            v.0 = format!("{}-not-reproducible-in-process", v.0);
+                        }
+                        acc.violations.push(v)
+                    }
                 }
             }
         }
@@ -195,6 +243,7 @@ pub fn run(tier: Tier) -> Report {
                 push(g);
             }
             crate::fam::with_defs(km, k1, k2, &mut |g| push(g));
+            crate::fam::twin_words(tier.pick(3, 4), &mut |g| push(g));
             for n in 2..=5 {
                 crate::fam::def_dags(n, &mut |g| push(g));
             }
@@ -245,7 +294,7 @@ pub fn run(tier: Tier) -> Report {
     rep.cov(
         "rule",
         J::s(format!(
-            "exhaustive: every tree with <= {k} nodes over leaves {{a, b, ab, a \"d1\", <U>, {{{{{{ c1 }}}}}}}} and operators seq | || [] ... word-juxtaposition descr(\"d2\"), arity 2..3, as `cmd E`; plus `cmd E; <X> = B1; <Y> = B2` (E<= {km} nodes, B1 <= {k1}, B2 <= {k2}, both definition orders); plus every definition DAG on 2..5 definitions (every forward-edge subset with all definitions reachable, 3 statement orders); plus the fixed corpus; x 4 shells. Per accepted grammar the product (reference position sets x complgen states) is explored completely for the raw and the minimized automaton; within-word automata are compared through canonical minimal forms. states/transitions = product states/edges summed over all runs."
+            "exhaustive: every tree with <= {k} nodes over leaves {{a, b, ab, a \"d1\", <U>, {{{{{{ c1 }}}}}}}} and operators seq | || [] ... word-juxtaposition descr(\"d2\"), arity 2..3, as `cmd E`; plus `cmd E; <X> = B1; <Y> = B2` (E<= {km} nodes, B1 <= {k1}, B2 <= {k2}, both definition orders); plus all pairs of within-word expressions <= 3 (4) nodes over {{p, q, r}} in two branches and one word-definition used at two fallback levels (interning of within-word automata); plus every definition DAG on 2..5 definitions (every forward-edge subset with all definitions reachable, 3 statement orders); plus the fixed corpus; x 4 shells. Per accepted grammar the product (reference position sets x complgen states) is explored completely for the raw and the minimized automaton; within-word automata are compared through canonical minimal forms. states/transitions = product states/edges summed over all runs."
         )),
     );
     rep.cov("exhaustive", J::Bool(true));
